@@ -389,6 +389,36 @@ def dataset_rule(ctx: Ctx):
             else:
                 # the kind of loss is part of the finding's identity: a different loss on the same kind is a new finding
                 ctx.refuted("R18.2", f"{site}::{cat}", bad, where=where(fi, fi.node))
+    # generator options given by the caller reach the generator for EVERY file (and nothing else does)
+    rec = Rec()
+    h = Harness(prog, rec.ext({}), max_steps=2_000_000)
+    site = f"{fi.key}::generator options for every file"
+    try:
+        d = build(h)
+        streams = {"f1": packets_for(3, [0]), "f2": packets_for(3, [1]), "f3": packets_for(3, [0, 1])}
+        calls = []
+
+        def pg3(selfv, f, **kw):
+            calls.append((files_of(f), dict(kw)))
+            return [p for n in files_of(f) for p in streams[n]]
+        h.it.ext["XtcePacketDefinition.packet_generator"] = pg3
+        given = {"parse_bad_pkts": False, "skip_header_bytes": 4, "root_container_name": "CCSDSPacket"}
+        k, got = h.outcome("create_dataset(['f1', 'f2', 'f3'], d, parse_bad_pkts=False, skip_header_bytes=4, root_container_name='CCSDSPacket')",
+                           XR, d=d)
+        bad = None
+        if k != "ok":
+            bad = f"create_dataset with generator options raises {got}"
+        elif [c[0] for c in calls] != [["f1"], ["f2"], ["f3"]]:
+            bad = f"the generator was called for {[c[0] for c in calls]}; expected once per file in the order given"
+        else:
+            for names, kw in calls:
+                if kw != given:
+                    bad = (f"file {names[0]}: packet_generator received {kw}; the caller gave {given} for every file (an option that is dropped "
+                           f"after the first file changes which packets are delivered)")
+                    break
+        ctx.decide(bad is None, "R18.4", site, "", bad or "", where=where(fi, fi.node))
+    except Unsupported as e:
+        ctx.unknown("R18.4", site, str(e))
     # no state survives a call: a second call in the same process with another definition that reuses a parameter name
     rec = Rec()
     h = Harness(prog, rec.ext({}), max_steps=2_000_000)
